@@ -60,6 +60,9 @@ def units(tier):
                 continue
             for k in range(len(alpha.structured(n, symm))):
                 yield {"leg": "api-s", "n": n, "symm": symm, "k": k}
+    # scale leg: rows with thousands of stored pixels (size-dependent code paths), structured windows around them
+    for symm in (True, False):
+        yield {"leg": "longrow", "symm": symm}
     for symm in (True, False):
         for part in range(8):
             yield {"leg": "slices", "symm": symm, "form": "pair", "part": part}
@@ -190,12 +193,19 @@ def _api_case(R, n, symm, cells, tag, only, join=False, reduced=False):
     try:
         build.create(p1, bins, pix, symm)
         build.create(p2 + "::/a/b", bins, pix, symm)
+        # a SECOND, different collection in the same file (as in a multi-resolution file): the complement pattern with other values;
+        # it is queried alternately with /a/b below, so that anything remembered per file (not per collection) shows
+        cells2 = [c for c in alpha.cells(n, symm) if c not in set(map(tuple, cells))]
+        pix2 = {c: 100 + alpha.value(n, c[0], c[1]) for c in cells2}
+        build.create(p2 + "::/other", bins, pix2, symm, mode="a")
+        M2 = build.dense(n, pix2, symm)
         R.add("states")
         R.add("traces")
         wins = alpha.intervals(n)
         h = h5py.File(p2, "r")
         try:
             srcs = {"path": cooler.Cooler(p1), "uri": cooler.Cooler(p2 + "::a/b"), "handle": cooler.Cooler(h["/a/b"])}
+            other = cooler.Cooler(p2 + "::/other").matrix(balance=False)
             inner_k = 0
             combos = (API_COMBOS[1::2] if reduced else API_COMBOS) + (JOIN_COMBOS if join else [])
             for store, out, cs in combos:
@@ -236,6 +246,10 @@ def _api_case(R, n, symm, cells, tag, only, join=False, reduced=False):
                                 if A.shape != exp.shape or not np.array_equal(A, exp):
                                     R.mismatch("api.matrix!=slice-of-full", inner, f"got={A.tolist()} want={exp.tolist()}")
                                 continue
+                            if store == "uri" and out == "dense":
+                                o2 = other[i0:i1, j0:j1]        # interleaved query on the other collection of the same file
+                                if o2.shape != exp.shape or not np.array_equal(o2, M2[i0:i1, j0:j1]):
+                                    R.mismatch("dense!=slice-of-full(second-collection-of-the-file)", inner, f"got={o2.tolist()} want={M2[i0:i1, j0:j1].tolist()}")
                             res = sel[i0:i1, j0:j1]
                             if out == "dense":
                                 if res.shape != exp.shape or not np.array_equal(res, exp):
@@ -264,6 +278,57 @@ def _api_case(R, n, symm, cells, tag, only, join=False, reduced=False):
             h.close()
     finally:
         scratch.rm(p1, p2)
+
+
+def _longrow(R, symm, only):
+    """engine level, n = 5000 bins: rows 0, 2500 and 4999 (last: symmetric mode has only its diagonal) are completely filled,
+    plus the diagonal; windows = single columns / short column ranges at and around 0, 4095, 4096, 4097, 4999, taken over
+    row ranges that contain the long rows; reference = scipy CSR of the (completed) matrix"""
+    import scipy.sparse as sp
+    from cooler.core import CSRReader, DirectRangeQuery2D, FillLowerRangeQuery2D
+    n = 5000
+    rows, cols = [], []
+    for r in (0, 2500, 4999):
+        js = np.arange(r if symm else 0, n)
+        rows.append(np.full(len(js), r)); cols.append(js)
+    d = np.arange(n)
+    rows.append(d); cols.append(d)
+    b1 = np.concatenate(rows); b2 = np.concatenate(cols)
+    key = np.unique(b1 * n + b2)
+    b1, b2 = key // n, key % n
+    v = (1 + (b1 * 7 + b2 * 13) % 1000).astype(np.int64)
+    S = sp.coo_matrix((v, (b1, b2)), shape=(n, n)).tocsr()
+    if symm:
+        S = S + sp.triu(S, 1).T.tocsr()
+    off = np.searchsorted(b1, np.arange(n + 1))
+    reader = CSRReader({"bin1_id": b1, "bin2_id": b2, "count": v}, off)
+    Eng = FillLowerRangeQuery2D if symm else DirectRangeQuery2D
+    R.add("states")
+    R.add("traces")
+    marks = [0, 1, 2499, 2500, 2501, 4094, 4095, 4096, 4097, 4998, 4999]
+    colr = [(m, m + 1) for m in marks] + [(m, min(n, m + 3)) for m in marks] + [(max(0, m - 2), m + 1) for m in marks] + [(0, 50), (4090, 4100), (4950, 5000)]
+    rowr = [(0, 1), (0, 3), (2499, 2502), (2500, 2501), (4990, 5000), (4999, 5000), (0, 2501), (4095, 4098)]
+    kk = 0
+    for (i0, i1) in rowr:
+        for (j0, j1) in colr:
+            for (a0, a1, c0, c1) in ((i0, i1, j0, j1), (j0, j1, i0, i1)):
+                for cs in (1000, 10 ** 7):
+                    kk += 1
+                    inner = {"win": [a0, a1, c0, c1], "cs": cs}
+                    if only is not None and only != inner:
+                        continue
+                    R.order = (R.order[0], kk)
+                    R.c["evaluations"] += 1
+                    R.c["nontrivial"] += 1
+                    R.c["transitions"] += 1
+                    R.classes["longrow"] += 1
+                    exp = S[a0:a1, c0:c1].toarray()
+                    try:
+                        got = Eng(reader, "count", (a0, a1, c0, c1), cs).to_sparse_matrix()
+                        if got.shape != exp.shape or len(set(zip(got.row.tolist(), got.col.tolist()))) != got.nnz or not np.array_equal(got.toarray(), exp):
+                            R.mismatch("sparse!=slice-of-full(long-rows)", inner, f"nnz got={got.nnz} want={int((exp != 0).sum())}")
+                    except Exception as e:
+                        R.mismatch("raises:" + type(e).__name__, inner, f"{e!s:.200}")
 
 
 def _bins_for(n):
@@ -370,6 +435,8 @@ def run(unit, R, tier, only=None):
         if unit["k"] == 1:
             R.sample({"leg": leg, "n": n, "symm": symm, "stored_cells": name, "combos": [list(c) for c in API_COMBOS]})
         _api_case(R, n, symm, cells, name, only, join=(name == "full" and n <= 4), reduced=(n >= 5))
+    elif leg == "longrow":
+        _longrow(R, unit["symm"], only)
     elif leg == "slices":
         _slices_case(R, unit["symm"], unit["form"], only, unit.get("part", 0))
     else:
